@@ -26,7 +26,9 @@ Record facts := {
   pool_catches_base : bool;     (* ThreadPoolServer._serve_requests catches a BaseException that is not an Exception (drops that connection) *)
   worker_tracks_served : bool;  (* _authenticate_and_serve_client keeps in self.clients the socket it actually serves (the one the authenticator returned) *)
   accept_survives_oserror : bool;  (* Server.accept carries on after an OS error of accept() that is not the listener failing (EMFILE, ENFILE, ECONNABORTED ...) *)
-  accept_rechecks_closed : bool    (* Server.accept looks at _closed again after clients.add(sock): a close() running meanwhile cannot miss the socket *)
+  accept_rechecks_closed : bool;   (* Server.accept looks at _closed again after clients.add(sock): a close() running meanwhile cannot miss the socket *)
+  accept_survives_spawn_failure : bool  (* Server.accept gives up a client for which _accept_method cannot start a thread / child process
+                                           (RuntimeError, OSError: resource limit) and goes on, instead of letting the error end start() *)
 }.
 Record cfg := { kind : skind; fx : facts; has_auth : bool; class_svc : bool; nworkers : nat; batch : nat;
                 auth_replaces : bool   (* the authenticator returns another socket object than it was given (TLS wrapping) *) }.
@@ -37,7 +39,7 @@ Inductive sinstr :=
 | CIfClosedReturn | CSetClosed | CClearActive | CUnregisterGuarded | CListenerShutdownGuarded | CListenerClose
 | CForClientsShutdownClose | CClientsClear
 | AWhileActive | AAccept | ATimeoutContinue | AEintrContinue | AErrorRaiseEOF | AElseBreak | AIfInactiveReturn
-| ASetBlocking | AClientsAdd | ACallAcceptMethod | AResourceErrorSleepContinue | ARecheckClosed
+| ASetBlocking | AClientsAdd | ACallAcceptMethod | AResourceErrorSleepContinue | ARecheckClosed | ASpawnFailDiscardClose
 | WTry | WIfAuthenticator | WAuthenticate | WAuthErrorReturn | WTrackReplacedSocket | WServeClient | WReraise | WFinallyShutdownGuarded | WFinallyDiscard
 | VPeerName | VTry | VConfig | VConnect | VHandle | VFinallyPass | HServeAll
 | SListen | SRegister | STryWhileActiveAccept | SExceptEOFPass | SExceptKeyboardInterrupt | SFinallyClose
@@ -56,10 +58,10 @@ Inductive sinstr :=
 
 Definition close_prog := [CIfClosedReturn; CSetClosed; CClearActive; CUnregisterGuarded; CListenerShutdownGuarded; CListenerClose;
                           CForClientsShutdownClose; CClientsClear].                                  (* server_close *)
-Definition accept_prog_of (survives rechecks : bool) :=
+Definition accept_prog_of (survives rechecks spawnguard : bool) :=
   [AWhileActive; AAccept; ATimeoutContinue; AEintrContinue] ++ (if survives then [AResourceErrorSleepContinue] else [])
   ++ [AErrorRaiseEOF; AElseBreak; AIfInactiveReturn; ASetBlocking; AClientsAdd] ++ (if rechecks then [ARecheckClosed] else [])
-  ++ [ACallAcceptMethod].                                                                             (* EAccept / EAcceptFail *)
+  ++ [ACallAcceptMethod] ++ (if spawnguard then [ASpawnFailDiscardClose] else []).                    (* EAccept / EAcceptFail / ESpawnFail *)
 Definition worker_prog_of (tracks : bool) :=
   [WTry; WIfAuthenticator; WAuthenticate; WAuthErrorReturn] ++ (if tracks then [WTrackReplacedSocket] else [])
   ++ [WServeClient; WReraise; WFinallyShutdownGuarded; WFinallyDiscard].                              (* work / finish_own *)
@@ -410,7 +412,18 @@ Inductive event :=
 | ETake (w : nat)                    (* pool: idle worker w takes the head of the active queue *)
 | EServe (w : nat)                   (* pool: worker w does one Connection.poll() on the connection it holds *)
 | EAcceptFail                        (* accept() raises an OS error that is neither a timeout nor EINTR/EAGAIN (descriptor limit, aborted connection) *)
+| ESpawnFail                         (* threaded / forking: the accept loop takes the oldest queued connection, but the thread or child
+                                        process that should serve it cannot be started (RLIMIT_NPROC: RuntimeError / BlockingIOError) *)
 | EClose.                            (* Server.close() *)
+
+(* the servers whose _accept_method starts a thread or a process per client *)
+Definition spawns : bool := match kind K with Threaded | Forking => true | _ => false end.
+(* accept() has added the socket to Server.clients; _accept_method raises before any worker exists.  A tree that guards the call
+   discards and closes that socket (exactly the worker's own `finally`) and goes on; otherwise the error leaves accept() and start(),
+   whose `finally: self.close()` throws every client out. *)
+Definition spawn_fail (c : cid) (rest : list cid) (s : st) : st :=
+  let s1 := finish_own c (accept c rest s) in
+  if accept_survives_spawn_failure (fx K) then s1 else server_close s1.
 
 Definition step (e : event) (s : st) : option st :=
   match e with
@@ -437,6 +450,14 @@ Definition step (e : event) (s : st) : option st :=
       if active s && lopen s && is_none (busy s)
       then Some (if accept_survives_oserror (fx K) then s else server_close s)      (* start(): except EOFError: pass; finally: close() *)
       else None
+  | ESpawnFail =>
+      match backlog s with
+      | c :: rest =>
+          if active s && lopen s && is_none (busy s) && spawns
+          then Some (spawn_fail c rest s)
+          else None
+      | [] => None
+      end
   | EClose => Some (server_close s)
   end.
 
@@ -507,6 +528,7 @@ Definition event_of_sx (x : sx) : option event :=
   | SL [SI 0; c; a] => Some (EConnect (sx_nat c) (auth_of_z (sx_z a)))
   | SL [SI 8] => Some EAccept
   | SL [SI 9] => Some EAcceptFail
+  | SL [SI 10] => Some ESpawnFail
   | SL [SI 1; c; SB b] => Some (ESend (sx_nat c) b)
   | SL [SI 2; c; ab] => Some (ELeave (sx_nat c) (sx_bool ab))
   | SL [SI 3; c] => Some (EWork (sx_nat c))
@@ -558,10 +580,11 @@ Definition sx_state (s : st) : sx :=
      (2 ev)  is the event enabled? (no state change) *)
 Definition run_server (x : sx) : sx :=
   match x with
-  | SL [SL [kd; f1; f2; f3; f4; f5; f6; f7; au; cl; nw; bt; ar]; SL dtbl; SL ztbl; SL script] =>
+  | SL [SL [kd; f1; f2; f3; f4; f5; f6; f7; f8; au; cl; nw; bt; ar]; SL dtbl; SL ztbl; SL script] =>
       let K := {| kind := kind_of_z (sx_z kd);
                   fx := {| pool_close_drops := sx_bool f1; pool_fail_discards := sx_bool f2; fork_parent_keeps := sx_bool f3; pool_catches_base := sx_bool f4;
-                           worker_tracks_served := sx_bool f5; accept_survives_oserror := sx_bool f6; accept_rechecks_closed := sx_bool f7 |};
+                           worker_tracks_served := sx_bool f5; accept_survives_oserror := sx_bool f6; accept_rechecks_closed := sx_bool f7;
+                           accept_survives_spawn_failure := sx_bool f8 |};
                   has_auth := sx_bool au; class_svc := sx_bool cl; nworkers := sx_nat nw; batch := sx_nat bt; auth_replaces := sx_bool ar |} in
       let dt := map (fun e => match e with SL [SB a; q] => (a, req_of_sx q) | _ => ([], None) end) dtbl in
       let zt := map (fun e => match e with SL [SB a; SB b] => (a, b) | _ => ([], []) end) ztbl in
